@@ -81,6 +81,10 @@ type writePlan struct {
 	Cuts     []int  `json:"cuts,omitempty"`
 	UseWrite []bool `json:"use_write,omitempty"` // piece i uses Write([]byte) if UseWrite[i % len]
 	CloseVia bool   `json:"close_via,omitempty"` // utils.CloseWriteFile instead of Close
+	// Prior: the path already exists and holds a longer content when the case's content is written:
+	// 1 = written before through utils.OpenWriteFile (the case's text plus more), 2 = a plain file
+	// put there by the harness (same bytes, not compressed whatever the extension)
+	Prior int `json:"prior,omitempty"`
 }
 
 func genPlan(t *rapid.T) writePlan {
@@ -95,11 +99,12 @@ func genPlan(t *rapid.T) writePlan {
 		p.UseWrite = append(p.UseWrite, rapid.Bool().Draw(t, "write"))
 	}
 	p.CloseVia = rapid.Bool().Draw(t, "closevia")
+	p.Prior = rapid.SampledFrom([]int{0, 0, 0, 0, 0, 0, 1, 2}).Draw(t, "prior")
 	return p
 }
 
 func (p writePlan) valid() bool {
-	if len(p.Cuts) > 16 {
+	if len(p.Cuts) > 16 || p.Prior < 0 || p.Prior > 2 {
 		return false
 	}
 	for _, c := range p.Cuts {
@@ -137,16 +142,13 @@ func (p writePlan) pieces(texts []string) []string {
 	return out
 }
 
-// writeFile writes the pieces through utils.OpenWriteFile and checks, with an independent
-// reader, that the file holds exactly their concatenation in the container its name announces
-func writeFile(path, ext string, pieces []string, p writePlan) error {
+// writeOnce hands the pieces to a writer opened by utils.OpenWriteFile and closes it
+func writeOnce(path string, pieces []string, p writePlan) error {
 	f, e := utils.OpenWriteFile(path)
 	if e != nil {
 		return fmt.Errorf("OpenWriteFile(%q): %v", filepath.Base(path), e)
 	}
-	sizes := make([]int, len(pieces))
 	for i, part := range pieces {
-		sizes[i] = len(part)
 		var n int
 		if len(p.UseWrite) > 0 && p.UseWrite[i%len(p.UseWrite)] {
 			n, e = f.Write([]byte(part))
@@ -162,22 +164,91 @@ func writeFile(path, ext string, pieces []string, p writePlan) error {
 	} else if e = f.Close(); e != nil {
 		return fmt.Errorf("closing %q: %v", filepath.Base(path), e)
 	}
-	text := strings.Join(pieces, "")
-	raw, e := os.ReadFile(path)
-	if e != nil {
-		return fmt.Errorf("harness: %v", e)
-	}
-	back, e := decompress(raw, ext)
-	if e != nil {
-		return fmt.Errorf("the %q file written through OpenWriteFile is not readable by an independent %s reader: %v (%d bytes on disk for %d bytes of text, written in pieces of %v bytes)", ext, ext, e, len(raw), len(text), sizes)
-	}
-	if string(back) != text {
-		return fmt.Errorf("the file written through OpenWriteFile (%q) in pieces of %v bytes holds %d bytes instead of the %d written; first difference at byte %d", ext, sizes, len(back), len(text), firstDiff(string(back), text))
-	}
 	return nil
 }
 
-func classifyPlan(o *pbt.Outcome, pieces []string, ext string) {
+// priorContent: something longer than the text, made from it (the text, the text again in
+// reverse line order, and a line of padding)
+func priorContent(text string) string {
+	lines := strings.Split(text, "\n")
+	var sb strings.Builder
+	sb.WriteString(text)
+	for i := len(lines) - 1; i >= 0; i-- {
+		sb.WriteString(lines[i])
+		sb.WriteString("\n")
+	}
+	sb.WriteString(">previous content of this file, 64 bytes of padding ............\n")
+	return sb.String()
+}
+
+// writeFile writes the pieces through utils.OpenWriteFile - over an existing longer file if the
+// plan says so - and checks, with an independent reader, that the file holds exactly their
+// concatenation in the container its name announces, and nothing else
+func writeFile(path, ext string, pieces []string, p writePlan) (priorLonger bool, err error) {
+	text := strings.Join(pieces, "")
+	sizes := make([]int, len(pieces))
+	for i := range pieces {
+		sizes[i] = len(pieces[i])
+	}
+	priorSize := int64(-1)
+	switch p.Prior {
+	case 1:
+		if err = writeOnce(path, []string{priorContent(text)}, writePlan{}); err != nil {
+			return false, err
+		}
+	case 2:
+		if e := os.WriteFile(path, []byte(priorContent(text)), 0o644); e != nil {
+			return false, fmt.Errorf("harness: %v", e)
+		}
+	}
+	if p.Prior != 0 {
+		if st, e := os.Stat(path); e == nil {
+			priorSize = st.Size()
+		}
+	}
+	if err = writeOnce(path, pieces, p); err != nil {
+		return false, err
+	}
+	raw, e := os.ReadFile(path)
+	if e != nil {
+		return false, fmt.Errorf("harness: %v", e)
+	}
+	if p.Prior != 0 {
+		// the file must be what a write to a fresh path gives
+		fresh := filepath.Join(filepath.Dir(path), "fresh-"+filepath.Base(path))
+		defer os.Remove(fresh)
+		if err = writeOnce(fresh, pieces, p); err != nil {
+			return false, err
+		}
+		rawFresh, e := os.ReadFile(fresh)
+		if e != nil {
+			return false, fmt.Errorf("harness: %v", e)
+		}
+		priorLonger = priorSize > int64(len(rawFresh))
+		if !bytes.Equal(raw, rawFresh) {
+			return priorLonger, fmt.Errorf("writing %d bytes of text through OpenWriteFile to an existing %q file of %d bytes leaves %d bytes on disk; the same writes to a fresh path give %d bytes (first difference at byte %d): the previous content is not replaced",
+				len(text), extName(ext), priorSize, len(raw), len(rawFresh), firstDiff(string(raw), string(rawFresh)))
+		}
+	}
+	back, e := decompress(raw, ext)
+	if e != nil {
+		return priorLonger, fmt.Errorf("the %q file written through OpenWriteFile is not readable by an independent %s reader: %v (%d bytes on disk for %d bytes of text, written in pieces of %v bytes)", ext, ext, e, len(raw), len(text), sizes)
+	}
+	if string(back) != text {
+		return priorLonger, fmt.Errorf("the file written through OpenWriteFile (%q) in pieces of %v bytes holds %d bytes instead of the %d written; first difference at byte %d", ext, sizes, len(back), len(text), firstDiff(string(back), text))
+	}
+	return priorLonger, nil
+}
+
+func classifyPlan(o *pbt.Outcome, pieces []string, ext string, p writePlan, priorLonger bool) {
+	switch {
+	case p.Prior == 0:
+		o.Class("file:%s fresh path", extName(ext))
+	case priorLonger:
+		o.Class("file:%s written over an existing longer file (kind %d)", extName(ext), p.Prior)
+	default:
+		o.Class("file:%s written over an existing file that is not longer", extName(ext))
+	}
 	// a small piece still pending in the 4096-byte buffer followed by one that does not fit
 	pending := 0
 	mixed := false
@@ -243,7 +314,8 @@ func checkFile(c fileCase) (o pbt.Outcome, err error) {
 	path := filepath.Join(fileDir, fmt.Sprintf("a%d.%s%s", atomic.AddInt64(&fileSeq, 1), c.Cfg.Format, c.Ext))
 	defer os.Remove(path)
 	pieces := c.Plan.pieces([]string{text})
-	if err = writeFile(path, c.Ext, pieces, c.Plan); err != nil {
+	priorLonger, err := writeFile(path, c.Ext, pieces, c.Plan)
+	if err != nil {
 		return o, err
 	}
 	// and it is read back to the same alignment
@@ -274,7 +346,7 @@ func checkFile(c fileCase) (o pbt.Outcome, err error) {
 	o.Class("file:%s %s", extName(c.Ext), c.Cfg.Format)
 	o.Class("file:%s %s", extName(c.Ext), textClass(len(text)))
 	o.Class("%s %s", c.Cfg.Format, textClass(len(text)))
-	classifyPlan(&o, pieces, c.Ext)
+	classifyPlan(&o, pieces, c.Ext, c.Plan, priorLonger)
 	if viaReadAlign {
 		o.Class("read through ReadAlign")
 	} else {
@@ -354,7 +426,8 @@ func checkFStream(c fstreamCase) (o pbt.Outcome, err error) {
 	defer os.Remove(path)
 	// one write per alignment (what goalign reformat phylip does), cut further by the plan
 	pieces := c.Plan.pieces(texts)
-	if err = writeFile(path, c.Ext, pieces, c.Plan); err != nil {
+	priorLonger, err := writeFile(path, c.Ext, pieces, c.Plan)
+	if err != nil {
 		return o, err
 	}
 	sizes := make([]int, len(texts))
@@ -423,7 +496,7 @@ func checkFStream(c fstreamCase) (o pbt.Outcome, err error) {
 	o.Class("file:%s stream %s, reader %s", extName(c.Ext), textClass(total), c.Reader)
 	o.Class("stream of %d", len(c.Alis))
 	o.Class("strict=%v", c.Strict)
-	classifyPlan(&o, pieces, c.Ext)
+	classifyPlan(&o, pieces, c.Ext, c.Plan, priorLonger)
 	// non-trivial: the stream does not fit in one buffer of the reader (4096 bytes), so the
 	// end of the list is read after the calls that opened it have returned
 	o.NonTrivial = total > 4096
